@@ -4,6 +4,7 @@ from .. import core
 
 ID = "C02"
 MODULE = "DrandProofs.C02"
+DEPENDS = ["C18", "C10"]  # base store = sorted map (C18); stores filled by sync, incl. follow mode without the append layer, are written in order (C10): re-checked with this property (check, P5b)
 THEOREMS = ["Drand.Chain." + t for t in [
     "c02_init_inv", "c02_put_inv", "c02_restart", "c02_chain_inv", "c02_append_only", "c02_reput_head",
     "c02_gap_refused", "c02_agree", "c02_resync_sound", "c02_restart_genesis", "c02_failed_write_no_effect", "tie_appendStore_locked"]]
